@@ -15,3 +15,5 @@ for p in "$@"; do
     echo "[$p rc=$rc] $line"
 done
 git -C /repo checkout -- .
+# Leave a binary built from the restored tree behind (the checks above built the patched one).
+(cd /verif/sim && cargo build --release --offline >/dev/null 2>&1 && cp -f /verif/target/release/hsim /verif/target/hsim-default)
